@@ -968,6 +968,19 @@ class CMWorld(SmallWorld):
     def caches_of(self, h):
         return [h["cm"].dynamics._cache, h["pt"].dynamics._cache]
 
+    def live_flags(self):
+        """which transcription variant the working tree implements"""
+        from hiten.system.center import CenterManifold
+        pt = self._point()
+        cm = pt.get_center_manifold(self.DEG["dB"])
+        cm.degree = self.DEG["dA"]
+        f = {"PointCopies": int(pt.get_center_manifold(self.DEG["dB"]).degree) == self.DEG["dB"]}
+        if self.heavy:
+            cm = CenterManifold(self.pt_real, self.DEG["dA"])
+            cm.hamiltonian(self.DEG["dB"])
+            f["HamNoSideEffect"] = int(cm.degree) == self.DEG["dA"]
+        return f
+
     def do(self, h, op, arg):
         cm = h["cm"]
         try:
